@@ -219,3 +219,7 @@ func native3() StubSupport {
 
 // AssumeRange assumes lo <= v <= hi.
 func AssumeRange(v, lo, hi int64) { Assume(lo <= v && v <= hi) }
+
+// NoMerge disables callee merging for this run (the callee's paths, including the
+// big.Int buffer-reuse alternatives, are then explored one by one).
+func NoMerge() {}
